@@ -21,26 +21,26 @@ import (
 const modulePrefix = "github.com/openebs/jiva"
 
 type Config struct {
-	MaxSteps   int
-	MaxLoop    int
-	MaxDepth   int
-	MaxAlloc   int
-	EnumCap    int
-	MaxPaths   int
-	Params     map[string]int
+	MaxSteps int
+	MaxLoop  int
+	MaxDepth int
+	MaxAlloc int
+	EnumCap  int
+	MaxPaths int
+	Params   map[string]int
 	// BoundedLoops: functions (substring of their ssa name) whose loops are known to end
 	// within the given number of iterations on every well-formed state of the harness's
 	// size; running past it is reported as a hang (the process spins, typically holding a
 	// lock), not as an unwinding failure
 	BoundedLoops map[string]int
-	MapOrder   int
-	ForkIndex  bool
-	CrossCheck bool
-	Verbose    bool
-	Workers    int
-	SolverBin  string
-	Samples    int
-	TraceFile  string
+	MapOrder     int
+	ForkIndex    bool
+	CrossCheck   bool
+	Verbose      bool
+	Workers      int
+	SolverBin    string
+	Samples      int
+	TraceFile    string
 }
 
 func defaultConfig() Config {
